@@ -4,8 +4,8 @@ import warnings
 
 import numpy as np
 
-from traits.api import (Any, Array, Dict, HasTraits, Instance, Int, List, Set,
-                        Str, Tuple, Union)
+from traits.api import (Any, Array, Dict, HasTraits, Instance, Int, List, Map,
+                        Set, Str, Trait, Tuple, Union)
 
 LEVEL = "model_checking"
 RULE = ("every history up to the depth bound over operations on one instance "
@@ -30,7 +30,9 @@ MIN_OUTCOMES = {t: ["default-read", "siblings-checked", "dyn-default-once",
 TIMEOUT = {"quick": 1200, "thorough": 7200}
 
 NAMES = ["c", "al", "ad", "l", "d", "s", "inst", "dyn", "tl", "tls", "u",
-         "arr", "fl"]
+         "arr", "fl", "bg", "border", "frame", "mp"]
+#: expectations that do not come from the implementation
+DECLARED = {"bg": "red", "border": "blue", "frame": "red", "mp": "a"}
 CONTAINERS = {"al": "list", "ad": "dict", "l": "list", "d": "dict",
               "s": "set", "dyn": "list", "u": "list", "fl": "list"}
 
@@ -42,7 +44,27 @@ def make_classes():
         class A(HasTraits):
             pass
 
+        #: ONE trait definition object used for several attributes and in
+        #: two classes
+        Shade = Trait("red", "green", "blue")
+
+        class Other(HasTraits):
+            shade = Shade
+
         class K(HasTraits):
+            bg = Shade
+            border = Shade
+            frame = Shade
+            mp = Map({"a": 1, "b": 2})
+
+            def _border_default(self):
+                return "blue"
+
+            def _mp_default(self):
+                cnt = self.__dict__.setdefault("_mp_runs", [0])
+                cnt[0] += 1
+                return "a"
+
             c = Int(3)
             al = Any([])
             ad = Any({})
@@ -77,6 +99,7 @@ def make_classes():
                 cnt = self.__dict__.setdefault("_dyn_runs", [0])
                 cnt[0] += 1
                 return [1]
+    K.Other = Other
     return A, K, KS
 
 
@@ -112,11 +135,18 @@ def baseline():
     return _BASE
 
 
+#: names that also get handler add/remove events (handler registration
+#: clones the class trait into an instance trait)
+HANDLER_NAMES = ("c", "al", "l", "d", "dyn", "tl", "mp", "border")
+
+
 def events():
     evs = []
     for n in NAMES:
-        evs += [("read", n), ("assign", n), ("del", n), ("otc_add", n),
-                ("otc_remove", n), ("obs_add", n), ("obs_remove", n)]
+        evs += [("read", n), ("assign", n), ("del", n)]
+        if n in HANDLER_NAMES:
+            evs += [("otc_add", n), ("otc_remove", n), ("obs_add", n),
+                    ("obs_remove", n)]
         if n in CONTAINERS or n in ("tl", "tls"):
             evs.append(("mutate", n))
     evs += [("add_trait", "c"), ("add_trait", "l"), ("add_trait", "zz"),
@@ -137,7 +167,7 @@ def submenu():
 
 VALID = {"c": 11, "al": [5], "ad": {"k": 1}, "l": [4], "d": {"k": 2},
          "s": {6}, "dyn": [8], "tl": ([3], 3), "tls": ([3], "q"), "u": [2],
-         "fl": [1]}
+         "fl": [1], "bg": "green", "border": "green", "mp": "b"}
 
 
 class World:
@@ -362,6 +392,24 @@ def final_check(ctx, w, hist):
             bad("dyn-default-twice", "_dyn_default ran %d times on a "
                 "sibling" % runs)
         objs.append((cname, o))
+        for n, want in DECLARED.items():
+            if getattr(o, n) != want:
+                bad("declared-default:%s" % n, "%s instance reads %s = %r, "
+                    "declared default is %r" % (cname, n, getattr(o, n),
+                                                want))
+        mruns = o.__dict__.get("_mp_runs", [0])[0]
+        if mruns > 1:
+            bad("map-default-twice", "_mp_default ran %d times on a sibling"
+                % mruns)
+    other = w.K.Other()
+    if other.shade != "red":
+        bad("shared-definition-object", "another class using the same trait "
+            "definition object reads %r, declared default is 'red'"
+            % (other.shade,))
+    mruns = w.a.__dict__.get("_mp_runs", [0])[0]
+    if mruns > 1 + w.dels:
+        bad("map-default-twice", "_mp_default ran %d times on the acting "
+            "instance (%d deletions)" % (mruns, w.dels))
     ctx.outcome("siblings-checked")
     if w.sib_calls:
         bad("sibling-handler-called", "handlers registered on sibling "
